@@ -407,6 +407,10 @@ def from_ast(node, env=None, leaf=None, ring=P):
                 rp = r.n if isinstance(r, Rat) else r
                 if not rp.t:
                     return lift(P.const(1))
+                lp_ = l.n if isinstance(l, Rat) and l.d == P.const(1) else l
+                if isinstance(lp_, P) and set(rp.t) - {()} and set(lp_.t) <= {()}:
+                    # constant base, symbolic exponent, e.g. (-1)**i1: an opaque atom
+                    return lift(P.sym('(%s)**(%s)' % (nfs(lp_), nfs(rp))))
                 if set(rp.t) == {()} and rp.t[()] == Fraction(1, 2):
                     base = l.n if isinstance(l, Rat) and l.d == P.const(1) else l
                     if isinstance(base, P):
